@@ -160,7 +160,7 @@ TRun ==
          j == IF ~r.ok /\ r.err \in {"undef", "need"} THEN "undef"   \* "need": a byte-level codec, not supplied on this route
               ELSE IF r.ok /\ ~e.ok THEN "spec evaluates, code failed"
               ELSE IF ~r.ok /\ e.ok THEN "spec fails (" \o r.err \o "), code evaluated"
-              ELSE IF r.ok /\ r.v.outs # e.outs THEN "outputs differ"
+              ELSE IF r.ok /\ JsonOuts(r.v.outs) # e.outs THEN "outputs differ"
               ELSE IF "reads" \in DOMAIN e /\ \E i \in DOMAIN e.reads : ~Inside(e.root, e.reads[i])
                    THEN "content read outside the root"
               ELSE IF r.ok /\ "reads" \in DOMAIN e /\ {e.reads[i] : i \in DOMAIN e.reads} # r.v.reads
@@ -291,7 +291,7 @@ TREnd ==
           Verdict(IF ~r.ok /\ r.err \in {"undef", "need"} THEN "undef"
                   ELSE IF r.ok /\ ~Ev.ok THEN "spec evaluates, code failed"
                   ELSE IF ~r.ok /\ Ev.ok THEN "spec fails (" \o r.err \o "), code evaluated"
-                  ELSE IF r.ok /\ r.v # Ev.outs THEN "outputs differ"
+                  ELSE IF r.ok /\ JsonOuts(r.v) # Ev.outs THEN "outputs differ"
                   ELSE "")
 
 (* one process: the termination protocol of every tool (C08) *)
